@@ -1,0 +1,38 @@
+//go:build verif
+
+package task
+
+// Contracts for the verification framework in /verif (comment-only file, build tag `verif`).
+
+// C14/C15: a task prop reads back exactly what was stored under that key (the admission and
+// conversion responses travel from the hook run to the webhook handler this way); other keys are
+// untouched. C04: the metadata read back is the metadata last stored (the retry of a failed
+// combined run executes the contexts saved by UpdateMetadata).
+//@ func (*BaseTask).SetProp
+//@   prop C14, C15
+//@   requires t.Props != nil
+//@   modifies mapof(t.Props)
+//@   ensures [stored]      has(t.Props, key) && t.Props[key] == value
+//@   ensures [others-kept] forall(k, string, k != key ==> has(t.Props, k) == old(has(t.Props, k)) && t.Props[k] == old(t.Props[k]))
+
+//@ func (*BaseTask).GetProp
+//@   prop C14, C15
+//@   modifies nothing
+//@   ensures [read-back] has(t.Props, key) ==> result == t.Props[key]
+//@   ensures [missing]   !has(t.Props, key) ==> result == nil
+
+//@ func (*BaseTask).UpdateMetadata
+//@   prop C04
+//@   modifies t.Metadata
+//@   ensures [stored] t.Metadata == meta
+
+//@ func (*BaseTask).GetMetadata
+//@   prop C04
+//@   modifies nothing
+//@   ensures [read-back] result == t.Metadata
+
+// NewTask: a fresh task with an empty, non-nil prop table.
+//@ func NewTask
+//@   prop C14
+//@   modifies nothing
+//@   ensures [fresh] result != nil && fresh(result) && result.Props != nil && card(result.Props) == 0 && result.Type == taskType && result.FailureCount == 0
